@@ -71,42 +71,42 @@ Ltac frag' :=
 
 (* emit_tree_wf, type level: for every type tree, generator state, attribute name and nesting flag *)
 Lemma emit_ty_attrs_frag cf :
-  (forall t st nm nested, balanced_frag (snd (emit_ty cf st t nm nested)))
-  /\ (forall a st, balanced_frag (snd (emit_attrs cf st a))).
+  (forall t up st nm nested, balanced_frag (snd (emit_ty cf up st t nm nested)))
+  /\ (forall a up st, balanced_frag (snd (emit_attrs cf up st a))).
 Proof.
   apply ty_attrs_ind.
-  - (* Comp *) intros c a IHa st nm nested. cbn [emit_ty]. cbv zeta. cbn [snd].
+  - (* Comp *) intros c a IHa up st nm nested. cbn [emit_ty]. cbv zeta. cbn [snd].
     apply frag_app; [frag'|].
     apply frag_elem; [reflexivity|]. apply frag_app; [frag'|]. apply frag_app; [|frag'].
     destruct a; [cbn [snd]; frag'| apply IHa | apply IHa].
-  - (* Arr *) intros es dep d e IHe st nm nested. cbn [emit_ty]. cbv zeta. cbn [snd].
+  - (* Arr *) intros es dep d e IHe up st nm nested. cbn [emit_ty]. cbv zeta. cbn [snd].
     apply frag_app; [frag'|]. apply frag_elem; [reflexivity|]. apply frag_app; [apply IHe|frag'].
-  - (* Prim *) intros s st nm nested. cbn [emit_ty snd]. frag'.
-  - intros st. cbn. apply frag_nil.
-  - intros nm doc t IHt rest IHr st. cbn [emit_attrs]. cbv zeta. cbn [snd].
+  - (* Prim *) intros s up st nm nested. cbn [emit_ty snd]. frag'.
+  - intros up st. cbn. apply frag_nil.
+  - intros nm doc t IHt rest IHr up st. cbn [emit_attrs]. cbv zeta. cbn [snd].
     apply frag_app; [apply IHt|]. apply frag_app; [frag'|apply IHr].
-  - intros di isf lb doc rest IHr st. cbn [emit_attrs]. cbv zeta. cbn [snd].
+  - intros di isf lb doc rest IHr up st. cbn [emit_attrs]. cbv zeta. cbn [snd].
     apply frag_app; [frag'|]. apply frag_app; [frag'|apply IHr].
 Qed.
 
-Theorem emit_ty_frag cf t st nm nested : balanced_frag (snd (emit_ty cf st t nm nested)).
+Theorem emit_ty_frag cf t up st nm nested : balanced_frag (snd (emit_ty cf up st t nm nested)).
 Proof. apply (proj1 (emit_ty_attrs_frag cf)). Qed.
 
-Lemma emit_types_frag cf ts : forall st, balanced_frag (snd (emit_types cf st ts)).
+Lemma emit_types_frag cf up ts : forall st, balanced_frag (snd (emit_types cf up st ts)).
 Proof.
   induction ts as [|[sn t] r IH]; intros st; cbn [emit_types]; [apply frag_nil|].
   destruct (str_eqb sn namespace_doc_key); [apply IH|]. cbv zeta. cbn [snd]. apply frag_app; [apply emit_ty_frag|apply IH].
 Qed.
 
 Lemma emit_ns_nsl_frag cf :
-  (forall n st, balanced_frag (snd (emit_ns cf st n))) /\ (forall l st, balanced_frag (snd (emit_nsl cf st l))).
+  (forall n up st, balanced_frag (snd (emit_ns cf up st n))) /\ (forall l up st, balanced_frag (snd (emit_nsl cf up st l))).
 Proof.
   apply nst_nsl_ind.
-  - intros name docs types subs IH st. cbn [emit_ns]. cbv zeta. cbn [snd].
+  - intros name docs types subs IH up st. cbn [emit_ns]. cbv zeta. cbn [snd].
     apply frag_app; [frag'|]. apply frag_elem; [reflexivity|].
     apply frag_app; [frag'|]. apply frag_app; [apply emit_types_frag|apply IH].
-  - intros st. apply frag_nil.
-  - intros n IHn r IHr st. cbn [emit_nsl]. cbv zeta. cbn [snd]. apply frag_app; [apply IHn|apply IHr].
+  - intros up st. apply frag_nil.
+  - intros n IHn r IHr up st. cbn [emit_nsl]. cbv zeta. cbn [snd]. apply frag_app; [apply IHn|apply IHr].
 Qed.
 
 Lemma sidebar_types_frag cf ts : balanced_frag (sidebar_types cf ts).
